@@ -43,13 +43,18 @@
         sFailClose k      `c.close(conn)`; `err != net.ErrClosed` (always, the error is a
                           `*net.OpError`) → `return`
   * `connection.recv(conn_k, connDone_k)`
-        rEof k            `conn.Read` returns an error (server closed, or the client closed the conn)
+        rEof k            `conn.Read` returns `io.EOF` (orderly close by the server, FIN): the second
+                          error branch of `recv`
+        rErr k            `conn.Read` returns a `*net.OpError`: the server reset the connection
+                          (`ECONNRESET`: abortive close, killed / restarted server, close with unread
+                          input) or the client closed the socket itself: the first error branch
         mark closing k    [yield "recv.closing"]
         rClose k          `c.close(conn)`
         rSignal k         deferred `connDone <- true`
   * `connection.close(conn_k)` under the lock, atomic:  as found  `c.isClosed = true; conn.Close()`
         — the flag is the SHARED one, whichever connection is being closed.
-  * peer:  `pClose k` the server stops reading connection `k` and closes it.
+  * peer:  `pClose k` the server stops reading connection `k` and closes it (FIN);
+           `pReset k` the server stops reading connection `k` and aborts it (RST).
   * observations of the scripted server (lag behind the client's action): `obsAccept k`, `obsRecv k id`.
 
   Not modelled: the response path (`recv` → `ClientProtocol.Recv`; property C08), `TarsClient.Close`
@@ -116,6 +121,8 @@ deriving DecidableEq, Repr
 structure Conn where
   /-- the server still reads this connection -/
   alive : Bool := true
+  /-- the server has aborted the connection (RST): the pending `Read` fails with a `*net.OpError` -/
+  reset : Bool := false
   /-- `close(conn)` has run for it: the client knows it is dead and has closed its socket -/
   known : Bool := false
   /-- buffer of `connDone` (capacity 1, one writer) -/
@@ -176,7 +183,9 @@ inductive Action
   | callFail (id : Nat)
   | callRet (id : Nat)
   | pClose (k : Nat)
+  | pReset (k : Nat)
   | rEof (k : Nat)
+  | rErr (k : Nat)
   | rClose (k : Nat)
   | rSignal (k : Nat)
   | mark (p : Point) (k : Nat)
@@ -272,10 +281,20 @@ def step (v : Variant) (cap : Nat) (s : State) : Action → Option State
     match s.conns[k]? with
     | some c => if c.alive then some (setConn s k { c with alive := false }) else none
     | none => none
+  | .pReset k =>
+    match s.conns[k]? with
+    | some c => if c.alive then some (setConn s k { c with alive := false, reset := true }) else none
+    | none => none
   | .rEof k =>
     match s.conns[k]? with
     | some c =>
-      if c.rpc = .reading ∧ (c.alive = false ∨ c.known = true) then
+      if c.rpc = .reading ∧ c.alive = false ∧ c.reset = false ∧ c.known = false then
+        some (setConn s k { c with rpc := .atClosing }) else none
+    | none => none
+  | .rErr k =>
+    match s.conns[k]? with
+    | some c =>
+      if c.rpc = .reading ∧ (c.reset = true ∨ c.known = true) then
         some (setConn s k { c with rpc := .atClosing }) else none
     | none => none
   | .rClose k =>
@@ -489,6 +508,7 @@ inductive Event
   | reconnected            -- some `Send` passed "Send.reconnected"
   | mark (p : Point) (k : Nat)
   | pClose (k : Nat)
+  | pReset (k : Nat)
   | accept (k : Nat)
   | recv (k : Nat) (id : Nat)
   | probe (closed : Bool) (sendQ failQ conns : Nat)
@@ -506,6 +526,7 @@ def fire (v : Variant) (cap : Nat) (s : State) : Event → List State
   | .reconnected => s.calls.filterMap (fun x => step v cap s (.markReconnected x.1.id))
   | .mark p k => (step v cap s (.mark p k)).toList
   | .pClose k => (step v cap s (.pClose k)).toList
+  | .pReset k => (step v cap s (.pReset k)).toList
   | .accept k => (step v cap s (.obsAccept k)).toList
   | .recv k id => (step v cap s (.obsRecv k id)).toList
   | .probe c q f n =>
@@ -513,7 +534,7 @@ def fire (v : Variant) (cap : Nat) (s : State) : Event → List State
 
 /-- internal (unobservable) actions -/
 def Action.isTau : Action → Bool
-  | .callBegin _ | .markReconnected _ | .callFail _ | .callRet _ | .pClose _ | .mark _ _
+  | .callBegin _ | .markReconnected _ | .callFail _ | .callRet _ | .pClose _ | .pReset _ | .mark _ _
   | .obsAccept _ | .obsRecv _ _ => false
   | _ => true
 
@@ -521,7 +542,7 @@ def Action.isTau : Action → Bool
 def tauActions (s : State) : List Action :=
   (s.calls.map (fun x => [Action.callReconnect x.1.id, .callEnq x.1.id])).flatten ++
   ((List.range s.conns.length).map (fun k =>
-    [Action.rEof k, .rClose k, .rSignal k, .sTopDone k, .sTopGo k, .sTakeFail k, .sNoFail k, .sTakeQ k,
+    [Action.rEof k, .rErr k, .rClose k, .rSignal k, .sTopDone k, .sTopGo k, .sTakeFail k, .sNoFail k, .sTakeQ k,
      .sTickClosed k, .sTickIdle k, .sTickCont k, .sIdleClose k, .sInnerFail k, .sInnerDone k,
      .sCheckOk k, .sCheckLost k, .sHandback k, .sWriteOk k, .sWriteLost k, .sWriteFail k,
      .sRequeue k, .sFailClose k])).flatten
